@@ -8,7 +8,7 @@
 From Coq Require Import List Arith Bool NArith.
 From FFSM2 Require Import Model.TaskList Model.BitArray Model.BitStream Model.Plan Model.Ancestors Model.Machine
   Proofs.BitArrayProofs Proofs.TaskListProofs Proofs.TaskListRun Proofs.PlanProofs Proofs.MachineFrame Proofs.MachinePlan Proofs.MachineLife Proofs.GuardProofs Proofs.CycleProofs Proofs.PlanStep
-  Proofs.SerialProofs Proofs.LogProofs Proofs.MachineTop Model.Multi Generated.InitFacts Proofs.ConstructProofs Proofs.LifeMonitor Proofs.ActivationRounds Proofs.IndexSafety Proofs.FeatureProofs Model.Script Proofs.Contract Proofs.Histories Proofs.StatusBits.
+  Proofs.SerialProofs Proofs.LogProofs Proofs.MachineTop Model.Multi Generated.InitFacts Proofs.ConstructProofs Proofs.LifeMonitor Proofs.ActivationRounds Proofs.IndexSafety Proofs.FeatureProofs Model.Script Proofs.Contract Proofs.Histories Proofs.StatusBits Proofs.Worlds Model.Cxx Generated.LeafCode Proofs.LeafTactics Proofs.LeafConsts Proofs.LeafCodeTaskList.
 Import ListNotations.
 
 (* for every history that uses none of the features and every two settings of (plans, serialization, history, log mode,
@@ -21,8 +21,8 @@ Theorem C19_all_four_switches :
          forall ops : list (api_op P),
          Forall (featureless_op P) ops ->
          forall (pl1 sr1 h1 : bool) (lm1 : logmode) (lg1 pl2 sr2 h2 : bool) (lm2 : logmode) (lg2 : bool),
-         strip_h P (strip P (run P (with_features cfg pl1 sr1 h1 lm1) orc' lg1 ops)) =
-         strip_h P (strip P (run P (with_features cfg pl2 sr2 h2 lm2) orc' lg2 ops)) /\
+         strip_h P (strip P (Machine.run P (with_features cfg pl1 sr1 h1 lm1) orc' lg1 ops)) =
+         strip_h P (strip P (Machine.run P (with_features cfg pl2 sr2 h2 lm2) orc' lg2 ops)) /\
          run_rets P (with_features cfg pl1 sr1 h1 lm1) orc' lg1 ops =
          run_rets P (with_features cfg pl2 sr2 h2 lm2) orc' lg2 ops.
 Proof. exact (features_irrelevant). Qed.
@@ -38,8 +38,8 @@ Theorem C19_all_four_switches_observable :
          Forall (featureless_op P) ops ->
          forall (pl sr h : bool) (lm : logmode) (lg1 lg2 : bool),
          let cfg2 := with_features cfg1 pl sr h lm in
-         let l := run P cfg1 orc' lg1 ops in
-         let r := run P cfg2 orc' lg2 ops in
+         let l := Machine.run P cfg1 orc' lg1 ops in
+         let r := Machine.run P cfg2 orc' lg2 ops in
          erase P (tr P l) = erase P (tr P r) /\
          active P (co P l) = active P (co P r) /\
          requested P (co P l) = requested P (co P r) /\
@@ -56,7 +56,8 @@ Theorem C19_features_against_the_bare_machine :
          forall ops : list (api_op P),
          Forall (featureless_op P) ops ->
          forall (pl sr h : bool) (lm : logmode) (lg : bool),
-         strip_h P (strip P (run P (with_features cfg pl sr h lm) orc' lg ops)) = bare_run P cfg orc ops /\
+         strip_h P (strip P (Machine.run P (with_features cfg pl sr h lm) orc' lg ops)) =
+         bare_run P cfg orc ops /\
          run_rets P (with_features cfg pl sr h lm) orc' lg ops = bare_rets P cfg orc ops.
 Proof. exact (features_transparent). Qed.
 Print Assumptions C19_features_against_the_bare_machine.
@@ -64,7 +65,7 @@ Print Assumptions C19_features_against_the_bare_machine.
 (* the serialization switch changes nothing but the availability of save/load *)
 Theorem C19_serialization_is_inert :
   forall (P : Type) (cfg : config) (b : bool) (orc : oracle P) (lg : bool) (ops : list (api_op P)),
-         run P (with_serial cfg b) orc lg ops = run P cfg orc lg ops.
+         Machine.run P (with_serial cfg b) orc lg ops = Machine.run P cfg orc lg ops.
 Proof. exact (serial_run). Qed.
 Print Assumptions C19_serialization_is_inert.
 
@@ -89,7 +90,8 @@ Print Assumptions C19_serialization_observe.
 Theorem C19_history_is_write_only :
   forall (P : Type) (cfg : config) (orc : oracle P) (lg : bool) (ops : list (api_op P)),
          Forall (no_history_op P) ops ->
-         strip_h P (run P (with_history cfg true) orc lg ops) = run P (with_history cfg false) orc lg ops.
+         strip_h P (Machine.run P (with_history cfg true) orc lg ops) =
+         Machine.run P (with_history cfg false) orc lg ops.
 Proof. exact (history_run_on_off). Qed.
 Print Assumptions C19_history_is_write_only.
 
@@ -107,9 +109,9 @@ Theorem C19_plans_idle :
          no_plan_oracle P orc ->
          forall (lg : bool) (ops : list (api_op P)),
          Forall (no_plan_op P) ops ->
-         run P (with_plans cfg true) orc lg ops = run P (with_plans cfg false) orc lg ops /\
+         Machine.run P (with_plans cfg true) orc lg ops = Machine.run P (with_plans cfg false) orc lg ops /\
          run_rets P (with_plans cfg true) orc lg ops = run_rets P (with_plans cfg false) orc lg ops /\
-         plan P (co P (run P (with_plans cfg true) orc lg ops)) = pd_init P (c_cap cfg) (c_n cfg).
+         plan P (co P (Machine.run P (with_plans cfg true) orc lg ops)) = pd_init P (c_cap cfg) (c_n cfg).
 Proof. exact (plans_run). Qed.
 Print Assumptions C19_plans_idle.
 
@@ -142,8 +144,8 @@ Print Assumptions C19_logging_does_not_interfere.
 (* with no logger attached the compile-time log mode is unobservable *)
 Theorem C19_log_mode_irrelevant_without_logger :
   forall (P : Type) (cfg : config) (lm1 lm2 : logmode) (orc : oracle P) (ops : list (api_op P)),
-         run P (with_log cfg lm1) orc false (map (detach_op P) ops) =
-         run P (with_log cfg lm2) orc false (map (detach_op P) ops).
+         Machine.run P (with_log cfg lm1) orc false (map (detach_op P) ops) =
+         Machine.run P (with_log cfg lm2) orc false (map (detach_op P) ops).
 Proof. exact (run_log_mode_irrelevant). Qed.
 Print Assumptions C19_log_mode_irrelevant_without_logger.
 
